@@ -103,15 +103,27 @@ def run_cases(cases, want_parse=True):
         gl = d.grammar([objs[n] for n in names])
         lines.append(gl)
         meta.append(None)
+        t_case = time.time()
+        slow = False
         for s in c["inputs"]:
+            if slow or time.time() - t_case > 3.0:
+                stats["slow_cases"] = stats.get("slow_cases", 0) + 1
+                break
             ln = min(len(s), 12)
             stats["input_len_hist"][ln] = stats["input_len_hist"].get(ln, 0) + 1
             st = pyimpl.str_tokens(s)
             for n in names:
                 rid = d.rids[id(objs[n])]
                 for i in range(len(s) + 1):
+                    t1 = time.time()
+                    r_impl = pyimpl.run_lparse(objs[n], s, i)
+                    if time.time() - t1 > 0.5:
+                        slow = True   # exponential backtracking: a runtime effect, not semantics; skip
+                        break
                     lines.append(" ".join(["LPARSE", "0", str(rid), str(i)] + st))
-                    meta.append((c, "lparse", n, s, i, pyimpl.run_lparse(objs[n], s, i)))
+                    meta.append((c, "lparse", n, s, i, r_impl))
+                if slow:
+                    break
                 if want_parse:
                     for i in sorted({0, len(s) // 2, len(s)}):
                         lines.append(" ".join(["PARSE", "0", str(rid), str(i)] + st))
